@@ -97,8 +97,11 @@ def build(cs):
         v.levels = np.array([1, 2, 3], 'i')
     # an unlimited dimension has the length of the data written along it: it
     # needs at least one variable
-    tt = f.createVariable('tt', 'i', ('t',))
-    tt[:] = [11, 12]
+    # (cs['nott']: the fully masked V is the only variable along it - its
+    # fill values are data written along the dimension like any other)
+    if not cs.get('nott'):
+        tt = f.createVariable('tt', 'i', ('t',))
+        tt[:] = [11, 12]
     c = f.createVariable('x', 'd', ('x',))
     c[:] = [0.1, 0.2, 0.30000000000000004]
     c.units = 'm'
@@ -199,6 +202,20 @@ def gen_cases(rnd, tier, fillcfgs):
                 extra.append(d)
             else:
                 c['nf'] = rnd.random() < 0.5
+    cases += extra
+    # a fully masked variable as the only variable along the unlimited
+    # dimension
+    extra = []
+    for c in cases:
+        if c['masked'] == 'all' and c['rank'] in ('2d', '3d') and \
+                c['unlim'] in ('first', 'notfirst'):
+            extra.append(dict(c, nott=True))
+    for dt in ('f', 'i'):
+        for fl in FLAVOURS:
+            extra.append({'dt': dt, 'masked': 'all',
+                          'fill': rnd.choice(fillcfgs), 'rank': '2d',
+                          'unlim': 'first', 'flavour': fl, 'comp': 0,
+                          'zero': False, 'nott': True})
     cases += extra
     for i, c in enumerate(cases):
         c['tid'] = i + 1
